@@ -452,7 +452,22 @@ def r16_9(chk):
     chk.floor("R16.9", 1, "update_scoped_rules")
 
 
+def r16_10(chk):
+    chk.rule("R16.10", "a nested start is what keeps LR >= 0 under an evaluation limit, so the app-level initialiser does not carry on in silence when it could not give one: in _InitFrom.__call__ the handler around initialise_from_nested does something (re-raises, records, falls back to another way of starting at least as high) -- `except Exception: pass` lets the alternate start from its defaults whenever the nested initialisation is refused (NotImplementedError('Too many bins') for every rate-heterogeneity model, 'Too many loci', a mismatching tree) and an evaluation-limited fit then ends below the null")
+    m = chk.repo.module("app/evo.py")
+    fn = m.func("_InitFrom.__call__")
+    tries = [t for t in walk_no_nested(fn) if isinstance(t, ast.Try) and any(isinstance(c, ast.Call) and isinstance(c.func, ast.Attribute) and c.func.attr == "initialise_from_nested" for b_ in t.body for c in ast.walk(b_))]
+    k = key(m, "_InitFrom.__call__", "a refused nested initialisation is not swallowed")
+    if not tries:
+        chk.ok("R16.10", k, m.loc(fn), "initialise_from_nested is not wrapped in a try", nontrivial=True)
+    else:
+        silent = [h for t in tries for h in t.handlers if all(isinstance(st, ast.Pass) or (isinstance(st, ast.Expr) and isinstance(st.value, ast.Constant)) for st in h.body)]
+        chk.decide(not silent, "R16.10", k, m.loc(silent[0] if silent else tries[0]), "the handler acts on the failure", "`except ...: pass` around other.initialise_from_nested(nested): hypothesis(HKY85+Gamma(2 bins), GTR+Gamma(2 bins), max_evaluations=10) returns LR = -42 on a 3-taxon alignment because 'Too many bins' is swallowed and GTR+G starts from its defaults")
+    chk.floor("R16.10", 1, "_InitFrom.__call__")
+
+
 def run(chk):
+    r16_10(chk)
     r16_9(chk)
     r16_8(chk)
     r16_7(chk)
